@@ -1,0 +1,7 @@
+//go:build !verif
+
+package bondgo
+
+// verifPoint marks a scheduling point of the compiler's worker goroutines. It does nothing unless
+// the package is built with the "verif" tag (see verif_on.go).
+func verifPoint(name string) {}
